@@ -9,3 +9,65 @@ def comps_of(case):
 
 def never(case, verdict):
     return False
+
+
+def _comps(case, ev):
+    if ev and ev.get("comps"):
+        return ev["comps"]
+    return comps_of(case or {})
+
+
+def _steps(comps):
+    return len(comps[0]["v"]) if comps else 0
+
+
+def _sum_at(comps, pred, t):
+    return sum(c["v"][t] for c in comps if pred(c) and t < len(c["v"]))
+
+
+def _is_el_epb_use(c):
+    return ((c["kind"] == "USED" and c["cr"] == "ELECTRICIDAD") or c["kind"] == "AUX") and c["srv"] not in ("NEPB", "COGEN")
+
+
+def pv_exported(case, verdict, ev):
+    """on-site electricity production exceeds the EPB electricity use at some step (so it is exported)"""
+    comps = _comps(case, ev)
+    if verdict.get("tag", "").endswith("lm1") or (ev and ev.get("lm")):
+        # with load matching part of the production is exported whenever there is production
+        return any(c["kind"] == "PROD" and c["src"] == "EL_INSITU" and any(x > 0 for x in c["v"]) for c in comps)
+    for t in range(_steps(comps)):
+        pv = _sum_at(comps, lambda c: c["kind"] == "PROD" and c["src"] == "EL_INSITU", t)
+        use = _sum_at(comps, _is_el_epb_use, t)
+        if pv > use:
+            return True
+    return False
+
+
+def cogen_exported(case, verdict, ev):
+    """cogenerated electricity is exported at some step (production of PV + CHP exceeds the EPB use, or load matching)"""
+    comps = _comps(case, ev)
+    has = any(c["kind"] == "PROD" and c["src"] == "EL_COGEN" and any(x > 0 for x in c["v"]) for c in comps)
+    if not has:
+        return False
+    if ev and ev.get("lm"):
+        return True
+    for t in range(_steps(comps)):
+        pr = _sum_at(comps, lambda c: c["kind"] == "PROD" and c["src"] in ("EL_COGEN", "EL_INSITU"), t)
+        chp = _sum_at(comps, lambda c: c["kind"] == "PROD" and c["src"] == "EL_COGEN", t)
+        use = _sum_at(comps, _is_el_epb_use, t)
+        if chp > 0 and pr > use:
+            return True
+    return False
+
+
+def pv_or_cogen_exported(case, verdict, ev):
+    return pv_exported(case, verdict, ev) or cogen_exported(case, verdict, ev)
+
+
+NEARBY = ("BIOMASA", "BIOMASADENSIFICADA", "RED1", "RED2", "EAMBIENTE", "TERMOSOLAR")
+
+
+def renewable_cogen(case, verdict, ev):
+    """cogeneration whose fuel is a nearby (renewable) carrier"""
+    comps = _comps(case, ev)
+    return any(c["kind"] == "USED" and c["srv"] == "COGEN" and c["cr"] in NEARBY for c in comps)
